@@ -4,6 +4,10 @@
 pub struct RArr { pub len: int, pub at: spec_fn(int) -> real }
 pub struct RArr2 { pub n: int, pub m: int, pub at: spec_fn(int, int) -> real }
 pub enum LErr { E }
+/// opaque records (parameter records etc.) and arrays of them
+#[verifier::external_body] pub struct Rec { _p: () }
+pub struct OArr { pub len: int, pub at: spec_fn(int) -> Rec }
+pub struct OArr2 { pub n: int, pub m: int, pub at: spec_fn(int, int) -> Rec }
 pub uninterp spec fn rexp(x: real) -> real;
 pub uninterp spec fn rln(x: real) -> real;
 pub uninterp spec fn rsqrt(x: real) -> real;
